@@ -499,4 +499,284 @@ theorem mi_init (c : Cfg) : MI {} (init c) := by
   · intro k; rfl
   · rfl
 
+/-! ## the record ledger is silent on the model too -/
+
+def ledgerRun (c : Cfg) : Ledger → State → List Op → List Verdict
+  | _, _, [] => []
+  | l, s, op :: ops =>
+    (feedL c l (eventsOf s op)).2 ++ ledgerRun c (feedL c l (eventsOf s op)).1 (step s op).1 ops
+
+/-- the ledger's picture at a call boundary: it knows the table and nothing is owed -/
+structure LI (l : Ledger) (s : State) : Prop where
+  hl : ∀ k, AMap.lookup l.held k = (AMap.lookup s.allocs k).map blkOf
+  ea : l.expA = []
+  er : l.expR = []
+  nb : l.blind = false
+
+theorem feedL_nil (c : Cfg) (l : Ledger) : feedL c l [] = (l, []) := rfl
+
+theorem feedL_cons (c : Cfg) (l : Ledger) (ev : Ev) (evs : List Ev) :
+    feedL c l (ev :: evs) =
+      ((feedL c (ledger c l ev).1 evs).1, (ledger c l ev).2 ++ (feedL c (ledger c l ev).1 evs).2) := by
+  unfold feedL
+  simp only [List.foldl_cons, List.nil_append]
+  generalize (ledger c l ev).1 = l'
+  generalize (ledger c l ev).2 = vs
+  have : ∀ (evs : List Ev) (l : Ledger) (pre : List Verdict),
+      evs.foldl (fun acc ev => ((ledger c acc.1 ev).1, acc.2 ++ (ledger c acc.1 ev).2)) (l, pre) =
+        ((evs.foldl (fun acc ev => ((ledger c acc.1 ev).1, acc.2 ++ (ledger c acc.1 ev).2)) (l, [])).1,
+         pre ++ (evs.foldl (fun acc ev => ((ledger c acc.1 ev).1, acc.2 ++ (ledger c acc.1 ev).2)) (l, [])).2) := by
+    intro evs
+    induction evs with
+    | nil => intro l pre; simp
+    | cons e es ih =>
+      intro l pre
+      simp only [List.foldl_cons, List.nil_append]
+      rw [ih, ih (ledger c l e).1 (ledger c l e).2]
+      simp [List.append_assoc]
+  rw [this evs l' vs]
+
+theorem feedL_append (c : Cfg) (l : Ledger) (e₁ e₂ : List Ev) :
+    feedL c l (e₁ ++ e₂) = ((feedL c (feedL c l e₁).1 e₂).1, (feedL c l e₁).2 ++ (feedL c (feedL c l e₁).1 e₂).2) := by
+  induction e₁ generalizing l with
+  | nil => simp [feedL_nil]
+  | cons e es ih =>
+    simp only [List.cons_append, feedL_cons, ih, List.append_assoc]
+
+theorem feedL_single (c : Cfg) (l : Ledger) (ev : Ev) : feedL c l [ev] = ((ledger c l ev).1, (ledger c l ev).2) := by
+  rw [feedL_cons, feedL_nil]; simp
+
+/-- what the ledger owes matches exactly the records the call wrote -/
+def Owes (l : Ledger) (d : List LogEntry) : Prop :=
+  (d = [] ∧ l.expA = [] ∧ l.expR = []) ∨
+  (∃ e, d = [e] ∧ (recKey e).1 = true ∧ l.expA = [(recKey e).2] ∧ l.expR = []) ∨
+  (∃ e, d = [e] ∧ (recKey e).1 = false ∧ l.expR = [(recKey e).2] ∧ l.expA = [])
+
+theorem feedL_events_silent {c : Cfg} {l₁ : Ledger} {s' : State} {d : List LogEntry}
+    (hl : ∀ k, AMap.lookup l₁.held k = (AMap.lookup s'.allocs k).map blkOf) (hnb : l₁.blind = false)
+    (ho : Owes l₁ d) :
+    (feedL c l₁ (d.reverse.map Ev.logged ++ [Ev.settled])).2 = [] ∧
+    LI (feedL c l₁ (d.reverse.map Ev.logged ++ [Ev.settled])).1 s' := by
+  rcases ho with ⟨hd, ha, hr⟩ | ⟨e, hd, hk, ha, hr⟩ | ⟨e, hd, hk, hr, ha⟩
+  · subst hd
+    simp only [List.reverse_nil, List.map_nil, List.nil_append]
+    rw [feedL_single]
+    simp only [ledger, ha, hr, List.map_nil, List.append_nil]
+    exact ⟨trivial, hl, rfl, rfl, hnb⟩
+  · subst hd
+    simp only [List.reverse_cons, List.reverse_nil, List.nil_append, List.map_cons, List.map_nil, List.cons_append]
+    rw [feedL_cons, feedL_single]
+    have h1 : ledger c l₁ (.logged e) = ({ l₁ with expA := [] }, []) := by
+      simp [ledger, hnb, hk, ha]
+    rw [h1]
+    simp only [ledger, hr, List.map_nil, List.append_nil]
+    exact ⟨trivial, hl, rfl, rfl, hnb⟩
+  · subst hd
+    simp only [List.reverse_cons, List.reverse_nil, List.nil_append, List.map_cons, List.map_nil, List.cons_append]
+    rw [feedL_cons, feedL_single]
+    have h1 : ledger c l₁ (.logged e) = ({ l₁ with expR := [] }, []) := by
+      simp [ledger, hnb, hk, hr]
+    rw [h1]
+    simp only [ledger, ha, List.map_nil, List.append_nil]
+    exact ⟨trivial, hl, rfl, rfl, hnb⟩
+
+/-- the conclusion for one call -/
+def StepOKL (l : Ledger) (s : State) (op : Op) : Prop :=
+  (feedL s.cfg l (eventsOf s op)).2 = [] ∧ LI (feedL s.cfg l (eventsOf s op)).1 (step s op).1
+
+theorem silentL_of_shape {l : Ledger} {s s' : State} {op : Op} {o : Obs} {api : List Ev} {d : List LogEntry}
+    (hstep : step s op = (s', o)) (hapi : apiEvents op o = api) (hlog : s'.log = d ++ s.log)
+    (h2 : (feedL s.cfg l api).2 = [])
+    (hl : ∀ k, AMap.lookup (feedL s.cfg l api).1.held k = (AMap.lookup s'.allocs k).map blkOf)
+    (hnb : (feedL s.cfg l api).1.blind = false) (ho : Owes (feedL s.cfg l api).1 d) : StepOKL l s op := by
+  unfold StepOKL eventsOf
+  rw [hstep]
+  simp only
+  rw [hapi, newRecords_of_append hlog, List.append_assoc, feedL_append, h2, List.nil_append]
+  exact feedL_events_silent hl hnb ho
+
+theorem recKey_logAllocation (c : Cfg) (a : Alloc) (e : LogEntry) (h : logAllocation c a = [e]) :
+    recKey e = (true, a.priv, a.pub, a.portStart.toNat) := by
+  unfold logAllocation at h
+  split at h
+  · simp at h
+  · split at h <;> (simp at h; subst h; rfl)
+
+theorem recKey_logDeallocation (c : Cfg) (k pub : Nat) (ps : UInt16) (e : LogEntry)
+    (h : logDeallocation c k pub ps = [e]) : recKey e = (false, k, pub, ps.toNat) := by
+  unfold logDeallocation at h
+  split at h
+  · simp at h
+  · split at h <;> (simp at h; subst h; rfl)
+
+theorem quietL_ok {l : Ledger} {s s' : State} {op : Op} {o : Obs} (hm : LI l s)
+    (hstep : step s op = (s', o)) (hapi : apiEvents op o = [])
+    (ha : s'.allocs = s.allocs) (hlog : s'.log = s.log) : StepOKL l s op := by
+  refine silentL_of_shape (d := []) hstep hapi (by rw [hlog]; rfl) rfl ?_ hm.nb (Or.inl ⟨rfl, hm.ea, hm.er⟩)
+  rw [feedL_nil, ha]; exact hm.hl
+
+theorem reaskL_ok {l : Ledger} {s : State} {op : Op} {k : Nat} {a : Alloc} (hm : LI l s)
+    (hstep : step s op = (s, .alloc a)) (hapi : apiEvents op (.alloc a) = [.got k (blkOf a)])
+    (hlk : AMap.lookup s.allocs k = some a) : StepOKL l s op := by
+  have hh : AMap.lookup l.held k = some (blkOf a) := by rw [hm.hl k, hlk]; rfl
+  have e : ledger s.cfg l (.got k (blkOf a)) = ({ l with held := AMap.insert l.held k (blkOf a) }, []) := by
+    simp [ledger, hh]
+  refine silentL_of_shape (api := [.got k (blkOf a)]) (d := []) hstep hapi rfl ?_ ?_ ?_ ?_
+  · rw [feedL_single, e]
+  · rw [feedL_single, e]
+    intro k'
+    simp only
+    rw [lookup_insert]
+    by_cases h : k' = k
+    · subst h; simp [hlk]
+    · simp [h, hm.hl k']
+  · rw [feedL_single, e]; exact hm.nb
+  · rw [feedL_single, e]; exact Or.inl ⟨rfl, hm.ea, hm.er⟩
+
+theorem commitL_ok {l : Ledger} {s : State} (hv : ValidCfg s.cfg) (hI : Inv s) (hm : LI l s) (k : Nat) (op : Op)
+    (hapi : ∀ o, apiEvents op o = apiEvents (.allocCommit k) o)
+    (hstep : step s op = allocCommit s k) : StepOKL l s op := by
+  have hI' : Inv (step s op).1 := inv_step hv hI op
+  cases hlk : AMap.lookup s.allocs k with
+  | some a =>
+    have e : allocCommit s k = (s, .alloc a) := by unfold allocCommit; simp [hlk]
+    exact reaskL_ok hm (hstep.trans e) (by rw [hapi]; rfl) hlk
+  | none =>
+    cases hsel : selectPool s.allocs s.pool 0 with
+    | none =>
+      have e : allocCommit s k = (s, .exhausted) := by unfold allocCommit; simp [hlk, hsel]
+      exact quietL_ok hm (hstep.trans e) (by rw [hapi]; rfl) rfl rfl
+    | some r =>
+      obtain ⟨i, sl, pe⟩ := r
+      obtain ⟨s', a, he, hall, hlog, hcfg⟩ := allocCommit_new hlk hsel
+      have hst := hstep.trans he
+      rw [hst] at hI'
+      have hpriv : a.priv = k := by
+        have hm' : (k, a) ∈ s'.allocs := by rw [hall]; exact mem_of_lookup (lookup_insert_self _ _ _)
+        exact (hI'.wf _ hm').priv
+      have hh : AMap.lookup l.held k = none := by rw [hm.hl k, hlk]; rfl
+      have e : ledger s.cfg l (.got k (blkOf a)) =
+          ({ l with held := AMap.insert l.held k (blkOf a), expA := owed s.cfg l (k, a.pub, a.portStart.toNat) l.expA }, []) := by
+        simp [ledger, hh, blkOf]
+      refine silentL_of_shape (api := [.got k (blkOf a)]) (d := logAllocation s.cfg a) hst ((hapi _).trans rfl) hlog ?_ ?_ ?_ ?_
+      · rw [feedL_single, e]
+      · rw [feedL_single, e]
+        intro k'
+        simp only
+        rw [lookup_insert, hall, lookup_insert]
+        by_cases h : k' = k
+        · simp [h]
+        · simp [h, hm.hl k']
+      · rw [feedL_single, e]; exact hm.nb
+      · rw [feedL_single, e]
+        simp only [owed, hm.nb, hm.ea, hm.er, Bool.not_false, Bool.and_true]
+        rcases logAllocation_shape s.cfg a with h0 | ⟨hon, e', he'⟩
+        · -- logging off: nothing written, nothing owed
+          have hoff : s.cfg.logOn = false := by
+            cases hc : s.cfg.logOn with
+            | false => rfl
+            | true =>
+              exfalso
+              unfold logAllocation at h0
+              simp [hc] at h0
+              split at h0 <;> simp at h0
+          left
+          simp [h0, hoff]
+        · right; left
+          refine ⟨e', he', ?_, ?_, rfl⟩
+          · rw [recKey_logAllocation _ _ _ he']
+          · rw [recKey_logAllocation _ _ _ he', hpriv]; simp [hon]
+
+theorem feedL_step_silent {l : Ledger} {s : State} (hv : ValidCfg s.cfg) (hI : Inv s) (hm : LI l s) (op : Op) :
+    StepOKL l s op := by
+  cases op with
+  | addIp ip =>
+    refine quietL_ok (s' := (addPublicIP s ip).1) (o := (addPublicIP s ip).2) hm rfl ?_ ?_ ?_
+    · unfold addPublicIP; split <;> rfl
+    · unfold addPublicIP; split <;> rfl
+    · unfold addPublicIP; split <;> rfl
+  | allocPre k =>
+    cases hlk : AMap.lookup s.allocs k with
+    | some a => exact reaskL_ok hm (by simp [step, allocPre, hlk]) rfl hlk
+    | none => exact quietL_ok (o := .miss) hm (by simp [step, allocPre, hlk]) rfl rfl rfl
+  | allocCommit k => exact commitL_ok hv hI hm k _ (fun _ => rfl) rfl
+  | alloc k =>
+    cases hlk : AMap.lookup s.allocs k with
+    | some a => exact reaskL_ok hm (by simp only [step]; rw [alloc_eq]; simp [hlk]) rfl hlk
+    | none =>
+      refine commitL_ok hv hI hm k _ ?_ (by simp only [step]; rw [alloc_eq]; simp [hlk])
+      intro o; cases o <;> rfl
+  | dealloc k =>
+    cases hlk : AMap.lookup s.allocs k with
+    | none =>
+      have hst : step s (.dealloc k) = (s, .ok) := by simp [step, dealloc, hlk]
+      have hh : AMap.lookup l.held k = none := by rw [hm.hl k, hlk]; rfl
+      have e : ledger s.cfg l (.released k) = (l, []) := by simp [ledger, hh]
+      refine silentL_of_shape (api := [.released k]) (d := []) hst rfl rfl ?_ ?_ ?_ ?_
+      · rw [feedL_single, e]
+      · rw [feedL_single, e]; exact hm.hl
+      · rw [feedL_single, e]; exact hm.nb
+      · rw [feedL_single, e]; exact Or.inl ⟨rfl, hm.ea, hm.er⟩
+    | some a =>
+      have hst : step s (.dealloc k) =
+          ({ s with allocs := AMap.erase s.allocs k, pool := bumpSubs s.pool a.poolIndex (-1),
+                    log := logDeallocation s.cfg k a.pub a.portStart ++ s.log }, .ok) := by
+        simp [step, dealloc, hlk]
+      have hh : AMap.lookup l.held k = some (blkOf a) := by rw [hm.hl k, hlk]; rfl
+      have e : ledger s.cfg l (.released k) =
+          ({ l with held := AMap.erase l.held k, expR := owed s.cfg l (k, a.pub, a.portStart.toNat) l.expR }, []) := by
+        simp [ledger, hh, blkOf]
+      refine silentL_of_shape (api := [.released k]) (d := logDeallocation s.cfg k a.pub a.portStart) hst rfl rfl ?_ ?_ ?_ ?_
+      · rw [feedL_single, e]
+      · rw [feedL_single, e]
+        intro k'
+        simp only
+        rw [lookup_erase, lookup_erase, hm.hl k']
+        by_cases h : k' = k <;> simp [h]
+      · rw [feedL_single, e]; exact hm.nb
+      · rw [feedL_single, e]
+        simp only [owed, hm.nb, hm.ea, hm.er, Bool.not_false, Bool.and_true]
+        rcases logDeallocation_shape s.cfg k a.pub a.portStart with h0 | ⟨hon, e', he'⟩
+        · have hoff : s.cfg.logOn = false := by
+            cases hc : s.cfg.logOn with
+            | false => rfl
+            | true =>
+              exfalso
+              unfold logDeallocation at h0
+              simp [hc] at h0
+              split at h0 <;> simp at h0
+          left
+          simp [h0, hoff]
+        · right; right
+          refine ⟨e', he', ?_, ?_, rfl⟩
+          · rw [recKey_logDeallocation _ _ _ _ _ he']
+          · rw [recKey_logDeallocation _ _ _ _ _ he']; simp [hon]
+  | get k =>
+    cases hlk : AMap.lookup s.allocs k with
+    | some a => exact reaskL_ok hm (by simp [step, getAllocation, hlk]) rfl hlk
+    | none =>
+      have hst : step s (.get k) = (s, .none) := by simp [step, getAllocation, hlk]
+      refine silentL_of_shape (api := [.lookedNone k]) (d := []) hst rfl rfl ?_ ?_ ?_ ?_
+      · rw [feedL_single]; rfl
+      · rw [feedL_single]; exact hm.hl
+      · rw [feedL_single]; exact hm.nb
+      · rw [feedL_single]; exact Or.inl ⟨rfl, hm.ea, hm.er⟩
+  | count => exact quietL_ok hm rfl rfl rfl rfl
+  | pools => exact quietL_ok hm rfl rfl rfl rfl
+
+theorem ledgerRun_silent {l : Ledger} {s : State} (hv : ValidCfg s.cfg) (hI : Inv s) (hm : LI l s)
+    (ops : List Op) : ledgerRun s.cfg l s ops = [] := by
+  induction ops generalizing l s with
+  | nil => rfl
+  | cons op ops ih =>
+    unfold ledgerRun
+    obtain ⟨h1, h2⟩ := feedL_step_silent hv hI hm op
+    rw [h1, List.nil_append]
+    have hc := step_cfg s op
+    have := ih (s := (step s op).1) (by rw [hc]; exact hv) (inv_step hv hI op) h2
+    rw [hc] at this
+    exact this
+
+theorem li_init (c : Cfg) : LI {} (init c) := ⟨fun _ => rfl, rfl, rfl, rfl⟩
+
 end Bng.Cgnat
